@@ -59,7 +59,13 @@ def run(cmd, timeout, cwd=None, env=None, stdin=None):
 def gen_consts():
     rc, out = run([sys.executable, os.path.join(VERIF, "tools", "gen_consts.py"),
                    os.path.join(COQ, "Consts.v"), os.path.join(BUILD, "consts.json")], 60)
+    # rc 3: only the function map is out of date; Consts.v / Shape.v were written and the models can still be built
+    global CONSTS_USABLE
+    CONSTS_USABLE = rc in (0, 3)
     return rc == 0, out.strip()
+
+
+CONSTS_USABLE = True
 
 
 def grep_gate():
